@@ -34,7 +34,7 @@ OPS = ["iloc", "loc", "mask", "head", "sort", "copy", "subset_with", "subset_wit
 
 
 def shards(tier, seed):
-    n = 35 if tier == "quick" else 500
+    n = 60 if tier == "quick" else 500
     out = []
     for i in range(2 if tier == "quick" else 6):
         for b in ("J", "B"):
